@@ -181,7 +181,7 @@ def run_format_traces(chk, scen_jobs):
     recs = [r for rs in runner.pmap(format_records, jobs) for r in rs]
     # corruptions of the first records: each must be rejected
     bad = []
-    for r in recs[:16]:
+    for r in [x for x in recs if x['mem']][:16]:       # (an output that describes no byte at all has nothing a shifted address could contradict)
         if not r['items']:
             continue
         it = json.loads(json.dumps(r['items']))
